@@ -38,7 +38,9 @@ ENGINES = {
                      'RecCrash: the next record is delivered with the source channel full; the handler is taken to be blocked on the send once the limiter '
                      'was consulted and neither waits nor sent messages changed for 30 ms (a handler that neither returns nor reaches the send within 3 s is '
                      'reported as an error observation); the blocked goroutine is leaked and the instance abandoned like in a crash',
-                     'logic cases build the limiter with rate 1e9 so that Wait never sleeps; waits are counted through the context passed to Wait'],
+                     'logic cases build the limiter with rate 1e9 so that Wait never sleeps; waits are counted through the context passed to Wait '
+                     '(WaitN polls ctx.Done() and then calls ctx.Deadline() once; a Deadline() call without preceding Done() means the limiter was given a '
+                     'context DERIVED from the consumer context, recorded as a negative entry - depends on the call order inside x/time/rate and context)'],
         shards=8,
     ),
 }
@@ -90,7 +92,8 @@ PROPS = {
                                'constructor has (limit, burst) = (parallelrecoverymaxrate, 100); n recovery events take >= (n-100)/rate s (5 ms slack); '
                                'interleaved main-consumer events are not delayed.',
                     level_note='That golang.org/x/time/rate.Limiter is an ideal token bucket and wall-clock behaviour are outside any Gallina model: runtime '
-                               'half is supporting measurement (rates 50-2000/s, 1-3 partitions, 6+2 timing cases per quick run).  Waits are observed through '
+                               'half is supporting measurement (rates 50-2000/s, 1-3 partitions, 6+2 timing cases per quick run, plus one case at rate 1, 2 or 3 '
+                               'with n just above the burst - lower bound 1-2 s - rotating by seed; one more per 3500 cases in the thorough tier).  Waits are observed through '
                                'the context passed to rateLimiter.Wait (hook SetWaitCtxV); logic cases run the limiter at 1e9/s.',
                     technique=_M + ' + wall-clock measurement (partial)', design_ref='DESIGN.md section 8, E4')),
 }
